@@ -387,12 +387,25 @@ def est_template(ctx, facts, fid):
         var = hirq.show_pat(fl["pat"])
         # F3: the accumulation
         accs = [n for n in user_nodes(fn) if n["k"] in ("Assign", "AssignOp") and t.contains(fl["body"], n)]
-        if len(accs) != 1 or accs[0]["k"] != "AssignOp" or accs[0]["op"] != "+=" or nf.nf(accs[0]["r"]) != "1":
+        # `count += (a[i] == b[i]) as <int>` adds 1 exactly when the comparison holds and 0 otherwise: the same accumulation as
+        # `if a[i] == b[i] { count += 1 }`; the comparison then plays the part of the guard
+        as_int = None
+        if len(accs) == 1 and accs[0]["k"] == "AssignOp" and accs[0]["op"] == "+=":
+            r_ = nf.strip(accs[0]["r"])
+            if r_["k"] == "Cast" and r_.get("ty") in ("i32", "u32", "usize", "u64", "i64", "u8", "u16", "isize"):
+                e_ = nf.strip(r_["e"])
+                if e_["k"] == "Path" and "local" in e_["res"] and R.lookup(e_["res"]["local"], e_) is not None:
+                    e_ = nf.strip(R.lookup(e_["res"]["local"], e_))
+                if e_["k"] == "Binary" and e_["op"] == "==" and e_.get("ty", "bool") == "bool":
+                    as_int = e_
+        if len(accs) != 1 or accs[0]["k"] != "AssignOp" or accs[0]["op"] != "+=" or (nf.nf(accs[0]["r"]) != "1" and as_int is None):
             ctx.violation("EST", fid, "F3 accumulation", hirq.loc(fl["loop"]), "the loop body must contain exactly one `count += 1`; found %s" % [nf.nf(a)[:40] for a in accs])
             return None
         acc = accs[0]
         cnt = nf.nf(acc["l"])
         conds = nf.all_conditions(t, acc, stop=fl["loop"], res=R)
+        if as_int is not None:
+            conds = conds + nf.atoms(as_int, True, res=R)
         eq = [c for c in conds if c[0] == "cmp" and c[2] == "=="]
         if len(conds) != 1 or len(eq) != 1:
             ctx.violation("EST", fid, "F3 condition", hirq.loc(acc), "`%s += 1` must be guarded by exactly one equality a[i] == b[i]; conditions: %s" % (cnt, conds))
@@ -433,6 +446,15 @@ def est_template(ctx, facts, fid):
         return None
     # F1: the length comparison before the loop
     facts_before = nf.early_facts(t, fl["match"], res=R)
+    # the same report written as a branch: `if a.len() == b.len() { count .. Ok(..) } else { Err(..) | panic }`
+    for (cn_, pol_) in t.conditions(fl["match"]):
+        if_ = t.parent.get(id(cn_))
+        if pol_ is True and if_ is not None and if_["k"] == "If" and "e" in if_:
+            el = nf.strip(if_["e"])
+            while el["k"] == "Block" and "expr" in el and all(hirq.in_log_macro(s_) for s_ in el["stmts"]):
+                el = nf.strip(el["expr"])
+            if nf._diverges(if_["e"]) or re.match(r"^(std::prelude::v1::|std::result::Result::)?Err\(", nf.nf(el, True)):
+                facts_before = facts_before + nf.atoms(cn_, True, res=R)
     okf1 = False
     for f in facts_before:
         if f[0] == "cmp" and f[2] == "==":
@@ -457,7 +479,20 @@ def est_template(ctx, facts, fid):
     rets = [n["e"] for n in user_nodes(fn) if n["k"] == "Ret" and "e" in n and _before(fn, fl["match"], n)]
     body = fn["hir"]
     if "expr" in body:
-        rets.append(body["expr"])
+        te = body["expr"]
+        # the value of the block that holds the loop (the function's tail may be the `if lengths agree {..} else {Err}` branch)
+        for _ in range(6):
+            te_ = nf.strip(te)
+            if te_["k"] == "If" and t.contains(te_["t"], fl["match"]):
+                te = te_["t"]
+            elif te_["k"] == "If" and "e" in te_ and t.contains(te_["e"], fl["match"]):
+                te = te_["e"]
+            elif te_["k"] == "Block" and "expr" in te_ and t.contains(te_, fl["match"]) and not t.contains(te_["expr"], fl["match"]):
+                te = te_["expr"]
+                break
+            else:
+                break
+        rets.append(te)
     if len(rets) != 1:
         ctx.violation("EST", fid, "F4 result", where, "expected one result expression after the loop, found %d" % len(rets))
         return None
